@@ -172,7 +172,78 @@ PUMPS = {"CartPole": [(1, +1), (3, +1)], "MountainCar": [(1, +1), (1, -1)], "Pen
          "Acrobot": [(2, +1), (3, +1)], "ContinuousMountainCar": [(1, +1), (1, -1)]}
 
 
+def _abstract_signals(ctx):
+    """Every MuJoCo and Unitree G1 environment (documented observation options on and off), without
+    compiling any physics: `jax.eval_shape` of reset and of one step gives the shape and dtype of the
+    observation, reward and flags, which must be those of the declared observation space, a float scalar
+    and boolean scalars.  (Value-level membership, finiteness and rollouts: thorough tier.)"""
+    from lerax.env import mujoco as M
+    cfgs = [(n, getattr(M, n), {}) for n in ["InvertedPendulum", "InvertedDoublePendulum", "Reacher", "Pusher",
+                                             "HalfCheetah", "Hopper", "Walker2d", "Swimmer", "Ant", "Humanoid",
+                                             "HumanoidStandup"]]
+    cfgs += [("HalfCheetah[pos]", M.HalfCheetah, {"exclude_current_positions_from_observation": False}),
+             ("Ant[no-cfrc,pos]", M.Ant, {"include_cfrc_ext_in_observation": False,
+                                          "exclude_current_positions_from_observation": False}),
+             ("Humanoid[no-cinert,no-cvel]", M.Humanoid, {"include_cinert_in_observation": False,
+                                                          "include_cvel_in_observation": False}),
+             ("Humanoid[no-qfrc,no-cfrc,pos]", M.Humanoid, {"include_qfrc_actuator_in_observation": False,
+                                                            "include_cfrc_ext_in_observation": False,
+                                                            "exclude_current_positions_from_observation": False}),
+             ("HumanoidStandup[no-cfrc]", M.HumanoidStandup, {"include_cfrc_ext_in_observation": False})]
+    try:
+        from lerax.env.unitree.g1 import G1Locomotion, G1Standing, G1Standup
+        cfgs += [("G1Locomotion", G1Locomotion, {}), ("G1Standing", G1Standing, {}), ("G1Standup", G1Standup, {})]
+    except Exception as e:  # noqa: BLE001
+        ctx.note(f"Unitree G1 environments not importable: {type(e).__name__}"[:120])
+    for name, cls, kw in cfgs:
+        try:
+            env = cls(**kw)
+        except TypeError as e:
+            ctx.note(f"{name}: constructor option not supported: {e}"[:160])
+            continue
+        variant = bool(kw)
+
+        def both(k):
+            s, o, _ = env.reset(key=k)
+            if variant:
+                return o, None
+            return o, env.step(s, env.action_space.sample(key=k), key=k)
+
+        obs0, stepped = jax.eval_shape(both, jr.key(0))
+        sp = env.observation_space
+        case = {"kind": "abstract-signals", "env": name, "options": {k_: v for k_, v in kw.items()},
+                "declared_shape": list(sp.shape), "declared_dtype": str(np.asarray(sp.low).dtype),
+                "reset_observation": [list(obs0.shape), str(obs0.dtype)]}
+        ctx.case(case, True)
+        ctx.count("abstract-signals:" + ("option-variant" if variant else "default"))
+        key_ = f"c02:abstract:{name}"
+        if tuple(obs0.shape) != tuple(sp.shape):
+            ctx.phi_fail("observation_shape_is_declared_shape", case, key=key_)
+            continue
+        if str(obs0.dtype) != str(np.asarray(sp.low).dtype):
+            ctx.phi_fail("observation_dtype_is_declared_dtype", case, key=key_)
+            continue
+        if stepped is None:
+            continue
+        _, o1, r, te, tr, _ = stepped
+        case["step"] = {"observation": [list(o1.shape), str(o1.dtype)], "reward": [list(r.shape), str(r.dtype)],
+                        "terminal": [list(te.shape), str(te.dtype)], "truncate": [list(tr.shape), str(tr.dtype)]}
+        if tuple(o1.shape) != tuple(sp.shape) or str(o1.dtype) != str(np.asarray(sp.low).dtype):
+            ctx.phi_fail("observation_shape_is_declared_shape", case, key=key_)
+        elif r.shape != () or not jnp.issubdtype(r.dtype, jnp.floating):
+            ctx.phi_fail("reward_is_float_scalar", case, key=key_)
+        elif te.shape != () or te.dtype != jnp.bool_:
+            ctx.phi_fail("terminal_is_boolean_scalar", case, key=key_)
+        elif tr.shape != () or tr.dtype != jnp.bool_:
+            ctx.phi_fail("truncated_is_boolean_scalar", case, key=key_)
+        a = jax.eval_shape(lambda k: env.action_space.sample(key=k), jr.key(0))
+        if tuple(a.shape) != tuple(env.action_space.shape):
+            ctx.phi_fail("sampled_actions_are_members", {**case, "action": [list(a.shape), str(a.dtype)]}, key=key_)
+        ctx.gc(6)
+
+
 def run(ctx):
+    _abstract_signals(ctx)
     classic = [("CartPole", CartPole), ("MountainCar", MountainCar), ("Pendulum", Pendulum),
                ("Acrobot", Acrobot), ("ContinuousMountainCar", ContinuousMountainCar)]
     H = ctx.budget(64, 512)
